@@ -132,7 +132,7 @@ def run(ctx):
                 convolve_model_dir(dd, filters)
                 ctx.regime('filters-used-before')
             except Exception as exc:
-                ctx.violation('convolve-raised:decoy', 'convolve_model_dir raised: %r' % (exc,), wit0)
+                ctx.raised(exc, 'convolve-raised:decoy', 'convolve_model_dir raised: %r' % (exc,), wit0)
             ctx.rmdir(dd)
         import copy as _copy
         filters_before = [_copy.deepcopy(f_) for f_ in filters]      # references are computed from the curves as handed over
@@ -144,7 +144,7 @@ def run(ctx):
                 with effects.trace() as tr:
                     convolve_model_dir(d, filters, memmap=mm)
             except Exception as exc:
-                ctx.violation('convolve-raised:' + style, 'convolve_model_dir raised: %r' % (exc,), dict(wit0, style=style))
+                ctx.raised(exc, 'convolve-raised:' + style, 'convolve_model_dir raised: %r' % (exc,), dict(wit0, style=style))
                 continue
             wrote = sorted(set(os.path.relpath(p, d) for p in tr.produced(under=d)))
             want = sorted('convolved/%s.fits' % f.name for f in filters)
@@ -157,7 +157,7 @@ def run(ctx):
                 try:
                     g = convcheck.read_convolved_plain(os.path.join(d, 'convolved', flt.name + '.fits'))
                 except Exception as exc:
-                    ctx.violation('file-unreadable:' + style, 'convolved file cannot be read: %r' % (exc,), dict(wit0, style=style))
+                    ctx.raised(exc, 'file-unreadable:' + style, 'convolved file cannot be read: %r' % (exc,), dict(wit0, style=style))
                     continue
                 got[(style, flt.name)] = g
                 wit = dict(wit0, style=style, filter=flt.name)
@@ -242,7 +242,7 @@ def run(ctx):
                     try:
                         built.append((style, d, mm, gen.make_fitter([f.name for f in filters], theta, d, law, (0.0, 30.0), dr, use_memmap=mm)))
                     except Exception as exc:
-                        ctx.violation('fitter-raised:' + style, 'Fitter() on the convolved package raised: %r' % (exc,), dict(wit0, style=style))
+                        ctx.raised(exc, 'fitter-raised:' + style, 'Fitter() on the convolved package raised: %r' % (exc,), dict(wit0, style=style))
             try:
                 extra_ft = gen.make_fitter([f.name for f in filters][::-1], theta[::-1], d2, law, (0.0, 30.0), dr, use_memmap=True)
                 if nfil > 1:
@@ -275,12 +275,12 @@ def run(ctx):
                         wk = np.sum(w * k) / np.sum(w)
                         if np.sum(w * (k - wk) ** 2) / np.sum(w * k ** 2) < 1e-6:
                             continue
-                    delta = rt * 2 + (3e-7 * (1 + float(np.max(np.abs(np.asarray(logm, float))))) if fitcheck.holds_float32(ft) else 0.0)
+                    delta = rt * 2 + (3e-7 * (1 + float(np.max(np.abs(np.asarray(logm, float))))) if ((mm and style == 'v2') or fitcheck.holds_float32(ft)) else 0.0)       # (memory-mapped storage may be single precision even if it is handed on in double)
                     tr = fitcheck.GridTruth(names, logm, k, 0.0, 30.0, delta=delta, logd=logd, tag=style)
                     try:
                         info = ft.fit(gen.build_source('s', valid, flux, err))
                     except Exception as exc:
-                        ctx.violation('fit-raised:' + style, 'fit raised: %r' % (exc,), dict(wit0, style=style))
+                        ctx.raised(exc, 'fit-raised:' + style, 'fit raised: %r' % (exc,), dict(wit0, style=style))
                         continue
                     wit = dict(wit0, style=style, memmap=mm, valid=valid, flux=flux, error=err)
                     if mode == '2d':
